@@ -208,14 +208,14 @@ def model_to_inputs(model, inputs: dict) -> dict:
     return out
 
 
-def nice_grid_constraints(inputs: dict) -> list:
-    """prefer counterexamples whose float inputs are multiples of 1/4 (exact in float32/16)"""
+def nice_grid_constraints(inputs: dict, denom: int = 4) -> list:
+    """prefer counterexamples whose float inputs are multiples of 1/denom (exact in float32)"""
     cs = []
     for name, sv in inputs.items():
         if isinstance(sv, SV) and sv.kind == "f":
             for v in sv.arr.flat:
                 if is_sym(v):
-                    cs.append(z3.IsInt(v * 4))
+                    cs.append(z3.IsInt(v * denom))
     return cs
 
 
@@ -277,9 +277,13 @@ def compare(res1: list, res2: list, inputs: dict, stats: Stats, extra: list | No
                     if not tterms:
                         verdict = {"verdict": "equiv_tol", "detail": "equal within the forward-error bound", "paths": verdict["paths"]} if verdict["verdict"] == "equiv" else verdict
                         continue
-                    nice = nice_grid_constraints(inputs)
-                    st2, m2 = _solve(base + nice + [z3.Or(tterms)], stats)
+                    grid = "1/4"
+                    st2, m2 = _solve(base + nice_grid_constraints(inputs) + [z3.Or(tterms)], stats)
                     if st2 != "sat":
+                        grid = "1/4096"
+                        st2, m2 = _solve(base + nice_grid_constraints(inputs, 4096) + [z3.Or(tterms)], stats)
+                    if st2 != "sat":
+                        grid = "none"
                         st2, m2 = _solve(base + [z3.Or(tterms)], stats)
                     if st2 == "unsat":
                         if verdict["verdict"] == "equiv":
@@ -288,16 +292,21 @@ def compare(res1: list, res2: list, inputs: dict, stats: Stats, extra: list | No
                     if st2 == "unknown":
                         verdict = {"verdict": "unknown", "detail": "timeout on tolerance query", "paths": verdict["paths"]}
                         continue
-                    return {"verdict": "cex", "kind": "value", "detail": "outputs differ beyond round-off",
+                    return {"verdict": "cex", "kind": "value", "detail": "outputs differ beyond round-off", "grid": grid,
                             "inputs": model_to_inputs(m2, inputs), "paths": verdict["paths"]}
             # prefer a replay-friendly counterexample
             nice = nice_grid_constraints(inputs)
+            grid = "none" if nice else "n/a"
             if nice:
                 st3, m3 = _solve(base + nice + [z3.Or(terms)], stats)
                 if st3 == "sat":
-                    m = m3
+                    m, grid = m3, "1/4"
+                else:
+                    st3, m3 = _solve(base + nice_grid_constraints(inputs, 4096) + [z3.Or(terms)], stats)
+                    if st3 == "sat":
+                        m, grid = m3, "1/4096"
             return {"verdict": "cex", "kind": "value", "detail": "outputs differ", "inputs": model_to_inputs(m, inputs),
-                    "paths": verdict["paths"]}
+                    "grid": grid, "paths": verdict["paths"]}
     return verdict
 
 
